@@ -140,7 +140,6 @@ func init() {
 	simple("encoding/pem.Encode", "pem.Encode: writes to the writer; nil or the writer's error", optHavoc)
 	simple("(encoding/asn1.ObjectIdentifier).Equal", "ObjectIdentifier.Equal: total predicate")
 	simple("(*debug/pe.File).Close", "pe.File.Close: nil or error")
-	simple("(time.Time).IsZero", "Time.IsZero: total predicate")
 
 	// interface methods on symbolic receivers --------------------------------
 	ifaceMethods["NewDecoder"] = nonNilIfaceResult
